@@ -3,7 +3,7 @@
    JournalFacts.v (and NamesFacts.v for the file-name codec). *)
 From Coq Require Import List NArith Sorted.
 From RaftLog Require Import Base.Bytes Model.Types Model.Codec Model.Cache Model.Core Model.Recover Model.Run.
-From RaftLog Require Import Model.Names Proofs.CodecFacts Proofs.JournalDisk Proofs.JournalChunk Proofs.JournalFacts Proofs.NamesFacts.
+From RaftLog Require Import Model.Names Model.Dump Proofs.CodecFacts Proofs.JournalDisk Proofs.JournalChunk Proofs.JournalFacts Proofs.NamesFacts Proofs.DumpFacts.
 Import ListNotations.
 Local Open Scope N_scope.
 
@@ -88,6 +88,40 @@ Theorem C11_name_order : forall n m, (n <= U64MAX)%N -> (m <= U64MAX)%N -> (n < 
   bytes_ltb (chunk_file_name n) (chunk_file_name m) = true.
 Proof. exact NamesFacts.C11_name_order. Qed.
 
+(* What the Dump API shows (Model/Dump.v: dump_ref = RaftLog::dump(), dump_dir = the
+   standalone Dump): after any history followed by flush + idle, both dumpers agree, report
+   no error item, visit exactly the chunk files of the directory, and list exactly the
+   journal: for every live chunk its records in order, each file starting with a state
+   snapshot, each item with its file-local offset and size. *)
+Theorem C11_dump_after_flush_idle : forall cfg ops cb res y,
+  ops_c11 ops = true -> Forall op_wf ops ->
+  run_case cfg (ops ++ [OFlush cb; OIdle]) = (res, Some y) ->
+  let k := y_core y in
+  let d := y_disk y in
+  dump_ref k d = dump_dir d /\
+  Forall (fun it => ditem_is_err it = false) (dump_ref k d) /\
+  ids d = dump_ref_ids k /\
+  exists rss : list (list record),
+    Forall2 (chunk_records (file_bytes d)) (live_chunks k) rss /\
+    dump_ref k d = journal_items (live_chunks k) rss /\
+    dump_records (dump_ref k d) = concat rss.
+Proof. exact DumpFacts.C11_dump_after_flush_idle. Qed.
+
+(* without the flush the two dumpers can differ: chunk files whose removal is still
+   buffered in the caller are on disk but no longer tracked (witness) *)
+Theorem C11_dump_is_journal_refuted : exists cfg ops res y,
+  ops_c11 ops = true /\ Forall op_wf ops /\ run_case cfg ops = (res, Some y) /\
+  y_queue y = [] /\ k_pending (y_core y) = [] /\
+  dump_ref (y_core y) (y_disk y) <> dump_dir (y_disk y).
+Proof. exact DumpFacts.C11_dump_is_journal_refuted. Qed.
+
+(* a file of complete records dumps as exactly those records *)
+Theorem C11_dump_file_encs : forall id rs, Forall wf_record rs ->
+  dump_file id (JournalChunk.encs rs) = recs_items id 0 0 rs.
+Proof. exact DumpFacts.dump_file_encs. Qed.
+
+Print Assumptions C11_dump_after_flush_idle.
+Print Assumptions C11_dump_is_journal_refuted.
 Print Assumptions C11_name_roundtrip.
 Print Assumptions C11_name_order.
 Print Assumptions C11_invariant.
